@@ -2,7 +2,7 @@
    The theorems certify the REFERENCE matcher (the oracle of the sweep) against the inductive
    definition of the documented language; the code is tied to it by the bounded exhaustive sweep. *)
 From Coq Require Import List String Bool Permutation.
-From RashV Require Import Usage UsageProofs.
+From RashV Require Import Usage UsageProofs Tail TailProofs.
 Import ListNotations.
 
 (* the executable matcher accepts with bindings b exactly when the documented relation holds *)
@@ -21,3 +21,15 @@ Proof. exact Matches_accounts. Qed.
 Theorem C07_rearrangement_check_sound :
   forall a b, rearr_b a b = true -> Permutation a b /\ words_of a = words_of b.
 Proof. exact rearr_b_sound. Qed.
+
+(* the mirror of the code's LAST stage (fed by the rash_verif hook with what the code computed): a
+   usage that matches binds every argument exactly once and in order - commands under their own
+   name, positionals verbatim, options through Options::parse *)
+Theorem C07_tail_binds_every_word_once : forall t alldefs argv ds l,
+  bind_list t argv ds alldefs = Some (Some l) ->
+  Forall2 (fun ad v => bound t alldefs (fst ad) (snd ad) v) (combine argv ds) l /\ List.length argv = List.length ds.
+Proof. exact matching_usage_binds_every_word_once. Qed.
+
+Theorem C07_tail_positional_is_verbatim : forall arg def,
+  exists key, parse_positional arg def = JObj [(key, JStr arg)] \/ parse_positional arg def = JObj [(key, JArr [arg])].
+Proof. exact positional_is_verbatim. Qed.
